@@ -81,11 +81,16 @@ struct World<S: KalmanStorage<SimClock>> {
     /// tame run: a link between two internal clocks is only measured once at least one of them has an
     /// offset uncertainty below 1e9 s (i.e. is tied, directly or indirectly, to an external reference)
     tame: bool,
+    /// this run has fed the filter an exchange between two internal clocks that both still had the
+    /// 1e18 s initial offset uncertainty (the ill-conditioned situation of known finding 2)
+    untied_pair_measured: bool,
     query_finding_reported: bool,
 }
 
 /// |step| at or beyond this many seconds means `Duration::from_f64_seconds` saturated (range is +-2^63 s)
 const SATURATED_S: f64 = 4.0e18;
+
+const UNTIED_MARK: &str = " [after an exchange between two internal clocks that both still had the 1e18 s initial offset uncertainty]";
 
 const MAX_FREQS: [f64; 4] = [500e-6, 100e-6, 1e-3, 20e-6];
 
@@ -626,7 +631,37 @@ impl<S: KalmanStorage<SimClock>> World<S> {
             let untied = |i: usize| clock_est(&before.est, self.ints[i].id).map(|e| !(e[1] < 1e9)).unwrap_or(false);
             if untied(a) && untied(b) {
                 probe("untied-internal-pair-measured");
+                self.untied_pair_measured = true;
             }
+        }
+        // Stable marker naming the ill-conditioned situation (used in violation details, so that the
+        // numerical blow-up it causes is a class of its own and nothing else can hide behind it).
+        let ill = if self.untied_pair_measured { UNTIED_MARK } else { "" };
+
+        // ---- C43: the filter's estimates stay finite -------------------------------------------
+        // (a non-finite estimate cannot "move by the applied step"; reported as its own clause instead of
+        // as a failed equality, and nothing meaningful can follow it)
+        let finite = |v: &FilterView| v.est.state.iter().all(|x| x.is_finite()) && (0..v.est.rows).all(|i| v.est.cov.get(i * v.est.rows + i).map(|x| x.is_finite()).unwrap_or(false));
+        let was_finite = finite(&before);
+        let is_finite = finite(&after);
+        if was_finite {
+            let bad: Vec<String> = self
+                .ints
+                .iter()
+                .enumerate()
+                .filter_map(|(i, c)| clock_est(&after.est, c.id).filter(|e| e.iter().any(|x| !x.is_finite())).map(|e| format!("k{i}: offset {:e} +- {:e}, frequency {:e} +- {:e}", e[0], e[1], e[2], e[3])))
+                .collect();
+            check!(
+                "C43",
+                "estimates-stay-finite",
+                is_finite,
+                "{what}: the filter's estimates were finite before the call and are not afterwards ({}){ill}",
+                bad.join("; ")
+            );
+        }
+        if !is_finite {
+            probe("estimates-non-finite");
+            self.stop = true;
         }
 
         // ---- C42: time never moves backwards ---------------------------------------
@@ -711,6 +746,10 @@ impl<S: KalmanStorage<SimClock>> World<S> {
                             check!("C43", "estimate-follows-step", false, "{what}: clock k{i} has no estimate after the call");
                             continue;
                         };
+                        if [p[0], p[2], q[0], q[2]].iter().any(|x| !x.is_finite()) {
+                            // judged by estimates-stay-finite above
+                            continue;
+                        }
                         let close = |got: f64, want: f64, scale: f64| (got - want).abs() <= 1e-15 + 1e-12 * scale.abs().max(want.abs());
                         if stepped {
                             probe("clock-stepped");
@@ -726,7 +765,7 @@ impl<S: KalmanStorage<SimClock>> World<S> {
                             p[0],
                             q[0],
                             p[0] + step,
-                            if step.abs() >= SATURATED_S { " (the step saturated at the +-2^63 s range of Duration)" } else { "" }
+                            if step.abs() >= SATURATED_S { format!(" (the step saturated at the +-2^63 s range of Duration){ill}") } else { String::new() }
                         );
                         check!(
                             "C43",
@@ -891,6 +930,7 @@ impl<S: KalmanStorage<SimClock>> World<S> {
             dead: false,
             stop: false,
             tame: false,
+            untied_pair_measured: false,
             query_finding_reported: false,
         };
         w.tame = tame;
